@@ -93,6 +93,14 @@ def export_shapes():
            ("Equals", st, L('a"b', ("STRING",))), ("Equals", st, L("", ("STRING",))), ("Equals", st, L("semi;colon (paren", ("STRING",))),
            ("Equals", st, L("line1\r\nline2", ("STRING",))), ("Equals", st, L("tab\there | bar", ("STRING",))),
            ("And", S("cr\rname"), ("Or", S("cr\rname"), S("crname"))), ("And", S("nl\nname"), ("Not", S("nlname")))]
+    # boundary payloads: rotation by the full width and by 0, characters outside ASCII / outside the BMP, numerals
+    # longer than the 4000-odd digits Python converts without being asked twice
+    sh += [("Equals", ("BVRol", u, 4), v), ("Equals", ("BVRor", u, 4), v), ("Equals", ("BVRol", u, 0), ("BVRor", v, 0)),
+           ("Equals", ("BVRol", S("o1", B1), 1), S("o1", B1)),
+           ("Equals", st, L("a\U0001F600b", ("STRING",))), ("Equals", st, L("\u00e9t\u00e9 \u2603", ("STRING",))),
+           ("Equals", ("StrLength", L("\U0001F600\U00010000", ("STRING",))), x), ("Equals", st, L("bell\x07 del\x7f", ("STRING",))),
+           ("LT", L(3 * 10 ** 4100 + 7, INT), x), ("LT", L(-(10 ** 4000) - 1, INT), x),
+           ("LE", r, L(F(10 ** 4050 + 1, 3), REAL))]
     # arrays, functions, custom sorts
     sh += [("Equals", ("Select", arr, x), y), ("Equals", ("Store", arr, x, y), arr), ("Equals", ("Select", abv, u), S("w8", B8)),
            ("Select", ("Select", aa, x), y), ("Equals", ("Array", ("type", INT), L(0, INT)), arr),
